@@ -354,6 +354,49 @@ def run(tier: str) -> int:
     return chk.finish()
 
 
+def selftest(tier: str) -> int:
+    """In-process mutation probes (never /repo)."""
+    from contextlib import contextmanager
+    from . import boot
+    from .core import run_probes
+    boot.setup()
+    import django_components.component as dcomp
+    import django_components.util.exception as dexc
+
+    @contextmanager
+    def patch(obj, name, new):
+        old = getattr(obj, name)
+        setattr(obj, name, new)
+        try:
+            yield
+        finally:
+            setattr(obj, name, old)
+
+    def no_cleanup_on_error():
+        return patch(dcomp, "_cleanup_failed_render", lambda state: None)
+
+    def cleanup_forgets_waiting_children():
+        def f(state):
+            if "render_id" in state:
+                dcomp.component_context_cache.pop(state["render_id"], None)
+                dcomp.unregister_provide_reference(state["render_id"])
+        return patch(dcomp, "_cleanup_failed_render", f)
+
+    def exception_rewrapped():
+        @contextmanager
+        def cem(path):
+            try:
+                yield
+            except Exception as e:
+                raise RuntimeError(f"An error occured while rendering components {path}: {e}") from e
+        return patch(dcomp, "component_error_message", cem)
+
+    return run_probes(PID, [("no-cleanup-on-error", no_cleanup_on_error),
+                            ("cleanup-forgets-waiting-children", cleanup_forgets_waiting_children),
+                            ("exception-re-wrapped", exception_rewrapped)],
+                      lambda chk: body(chk, n_programs=120, deep=2, machine=False, mc_nodes=2))
+
+
 def replay(path: str) -> int:
     from . import boot
     boot.setup()
